@@ -80,3 +80,43 @@ Proof.
     destruct (ci_buf i ++ in_bytes (ci_in i)); discriminate.
 Qed.
 End Inst.
+
+(* ---- every 5xx response that is sent through the connection is marked `connection: close` on
+        the wire and closes the write side (C20 clause 3; composes C05, C06 and the close rule) ---- *)
+From SV Require Import Spec.RespParse Spec.ConnSpec Proofs.ConnP Proofs.ResponseP.
+
+Section FiveXX.
+Variable url_parse : bytes -> option (bytes * option bytes).
+Variable reason : N -> bytes.
+Variable ct_text : nat -> bytes.
+
+Lemma fivexx_marked_close_on_wire (c : conn) (r : response) :
+  c_ws c = WS_Response -> 500 <= r_code r <= 599 ->
+  head_ok reason ct_text r = true -> collides r = false ->
+  let '(res, c') := cstep_inst url_parse reason ct_text true c (OWrite r) in
+  res = CR_Ok ->
+  exists delta,
+    c_wire c' = c_wire c ++ delta /\
+    parse_response delta = Some (r_code r, all_fields ct_text r true, body_payload (r_body r), []) /\
+    In (s_connection, s_close) (all_fields ct_text r true) /\
+    c_ws c' = WS_Shutdown /\ c_wshut c' = true.
+Proof.
+  intros Hw Hcode Hok Hcol.
+  assert (is_5xx_close (r_code r) = true) as H5
+    by (unfold is_5xx_close, in_range; apply andb_true_iff; split; apply N.leb_le; lia).
+  unfold cstep_inst. cbn [cstep].
+  pose proof (wresp_ws response r_code (write_out_inst reason ct_text) resp_continue_inst true c r Hw) as Hs.
+  pose proof (wresp_wire response r_code (write_out_inst reason ct_text) c r Hw) as Hwire.
+  destruct (write_response response r_code (write_out_inst reason ct_text) c r) as [res c'].
+  rewrite H5 in Hs, Hwire. unfold write_out_inst in Hs, Hwire.
+  destruct (write_http_response reason ct_text r true writer_all) as [[wres acc] w'] eqn:Ew.
+  cbn [fst snd] in Hs, Hwire. destruct Hs as [Hres [Hws [_ [_ Hsh]]]].
+  intros Hok'. destruct res as [e|]; [discriminate|].
+  destruct wres as [e|]; [discriminate|].
+  exists acc. split; [exact Hwire|].
+  destruct (W_roundtrip reason ct_text r true writer_all None acc w' Hok Hcol Ew eq_refl) as [Hp _].
+  split; [exact Hp|]. split.
+  - unfold all_fields, auto_fields. apply in_or_app. left. apply in_or_app. right. apply in_or_app. left. now left.
+  - split; [exact Hws|]. apply Hsh. now right.
+Qed.
+End FiveXX.
